@@ -402,6 +402,15 @@ class Compiler:
             s for s in statements if not isinstance(s, FunctionDeclaration)
         ]
 
+    @staticmethod
+    def _name_anonymous_function(value: Node, name: str) -> None:
+        """An anonymous function written as the initial value of a variable or
+        property is named after it (its name property; it is not a binding)."""
+        if isinstance(value, ArrowFunctionExpression) or (
+            isinstance(value, FunctionExpression) and value.id is None
+        ):
+            value._inferred_name = name
+
     def _context_index(self, ctx: LoopContext) -> int:
         """Position of a context on the stack (by identity: contexts compare equal
         field by field)."""
@@ -619,6 +628,7 @@ class Compiler:
             for decl in node.declarations:
                 name = decl.id.name
                 if decl.init:
+                    self._name_anonymous_function(decl.init, name)
                     self._compile_expression(decl.init)
                 elif self._in_function:
                     # `var x;` only declares: a value the variable already has
@@ -1520,6 +1530,8 @@ class Compiler:
                 if isinstance(prop.key, Identifier):
                     idx = self._add_constant(prop.key.name)
                     self._emit(OpCode.LOAD_CONST, idx)
+                    if prop.kind == "init" and not getattr(prop, "computed", False):
+                        self._name_anonymous_function(prop.value, prop.key.name)
                 else:
                     self._compile_expression(prop.key)
                 # Kind (for getters/setters)
@@ -1753,6 +1765,7 @@ class Compiler:
             if isinstance(node.left, Identifier):
                 name = node.left.name
                 if node.operator == "=":
+                    self._name_anonymous_function(node.right, name)
                     self._compile_expression(node.right)
                 else:
                     # Compound assignment - load current value first
@@ -1868,6 +1881,8 @@ class Compiler:
             func = self._compile_function(
                 name, node.params, node.body, is_expression=True
             )
+            if not name:
+                func.name = getattr(node, "_inferred_name", "")
             func_idx = len(self.functions)
             self.functions.append(func)
 
@@ -1877,6 +1892,7 @@ class Compiler:
 
         elif isinstance(node, ArrowFunctionExpression):
             func = self._compile_arrow_function(node)
+            func.name = getattr(node, "_inferred_name", "")
             func_idx = len(self.functions)
             self.functions.append(func)
 
